@@ -87,9 +87,10 @@ def semi (l : List String) : String := if l.isEmpty then "-" else ";".intercalat
 
 def showPath (p : List String) : String := if p.isEmpty then "." else "/".intercalate p
 
-def showEntry (p : List String) (k : Option Kind) (d : Option String) (x v : Bool) : String :=
+def showEntry (p : List String) (k : Option Kind) (d : Option String) (x v : Bool) (unsure : Bool := false) : String :=
   let ds := match d with | some d => tok d | none => "!"
-  s!"{showPath p}|{showKind k}|{ds}|{showBool x}|{showBool v}"
+  let vs := if unsure then "?" else showBool v
+  s!"{showPath p}|{showKind k}|{ds}|{showBool x}|{vs}"
 
 def handle : List String → String
   | ["run", fl, base, ops] =>
@@ -108,7 +109,10 @@ def handle : List String → String
         | .clean tt =>
           let lp := tt.livePaths
           let pv := lp.map fun e => let r := tt.previewEntry fl e.1 e.2; showEntry e.2 r.kind r.data r.exec r.versioned
-          let ap := lp.map fun e => let r := tt.appliedEntry fl e.1 e.2; showEntry e.2 r.kind (some r.data) r.exec r.versioned
+          -- git: where the index written by `_generate_index_changes` differs from the versioning the
+          -- `final_*` functions describe the reply says `?` (reported by the oracle, not compared by T2)
+          let ap := lp.map fun e => let r := tt.appliedEntry fl e.1 e.2
+            showEntry e.2 r.kind (some r.data) r.exec r.versioned (fl.git && r.versioned != tt.finalVersioned e.1)
           let fe := lp.map fun e => let r := tt.finalEntry e.1; showEntry e.2 r.kind (some r.data) r.exec r.versioned
           s!"ok {c0} clean {semi pv} {semi ap} {semi (tt.shadowed.map showPath)} {semi fe}"
     | _, _, _ => "bad-op"
